@@ -685,16 +685,30 @@ static Type *pointers(Token **rest, Token *tok, Type *ty) {
 }
 
 // declarator = pointers ("(" ident ")" | "(" declarator ")" | ident) type-suffix
+// Returns the token that follows the ")" matching the "(" at tok.
+static Token *skip_parens(Token *tok) {
+  int level = 0;
+  for (Token *t = tok; t->kind != TK_EOF; t = t->next) {
+    if (equal(t, "("))
+      level++;
+    else if (equal(t, ")") && --level == 0)
+      return t->next;
+  }
+  error_tok(tok, "expected ')'");
+}
+
 static Type *declarator(Token **rest, Token *tok, Type *ty) {
   ty = pointers(&tok, tok, ty);
 
   if (equal(tok, "(")) {
+    // The suffix after the parenthesized declarator binds first. Find
+    // it by matching parentheses instead of parsing the nested
+    // declarator twice, which takes time exponential in the nesting.
     Token *start = tok;
-    Type dummy = {};
-    declarator(&tok, start->next, &dummy);
-    tok = skip(tok, ")");
-    ty = type_suffix(rest, tok, ty);
-    return declarator(&tok, start->next, ty);
+    ty = type_suffix(rest, skip_parens(start), ty);
+    ty = declarator(&tok, start->next, ty);
+    skip(tok, ")");
+    return ty;
   }
 
   Token *name = NULL;
@@ -717,11 +731,10 @@ static Type *abstract_declarator(Token **rest, Token *tok, Type *ty) {
 
   if (equal(tok, "(")) {
     Token *start = tok;
-    Type dummy = {};
-    abstract_declarator(&tok, start->next, &dummy);
-    tok = skip(tok, ")");
-    ty = type_suffix(rest, tok, ty);
-    return abstract_declarator(&tok, start->next, ty);
+    ty = type_suffix(rest, skip_parens(start), ty);
+    ty = abstract_declarator(&tok, start->next, ty);
+    skip(tok, ")");
+    return ty;
   }
 
   return type_suffix(rest, tok, ty);
